@@ -14,12 +14,15 @@ Collector level (every state, every batch):
 * default configuration: drop commands change nothing at all (`C04_noop_default`, D9 fix);
 * API: `cancel()` on a non-root or no-op span sends nothing (`C04_cancel_nonroot`).
 
-Partial: "once `cancel()` has been *called*" needs the drop to be drained no later than the
-commit: same thread → FIFO incl. parked commands (C09, D2 fix); a thread that exits with a
-full queue can lose the parked drop (open finding D3); across threads the drop, pushed before
-the commit, is drained no later than it by the second drain pass (D4 repair, see
-`C03_second_pass_collects_all`); a drop consumed one cycle before the trace's `start` is a no-op
-(open finding D14).
+"Once `cancel()` has been *called*" needs the drop to be handled no later than the commit:
+same thread → per-thread FIFO incl. parked commands (C09, D2 fix; over whole programs
+`Fifo_no_overtaking`, `Props/Fifo.lean`); across threads the drop, pushed before the commit, is
+drained no later than it by the second drain pass (D4 repair, `C03_second_pass_collects_all`) and a
+drop seen before the trace's `start` waits for the next cycle (D14 repair,
+`C03_second_pass_waits_for_start`); a drop that could not be pushed at all because the calling
+thread's queue was full is noted in `PARKED_CANCELS` and handled by the collector before the
+commit (D21 repair, `C04_parked_cancel_suppresses`, `Props/Parked.lean`).  A thread that exits
+with a full queue loses its parked commands (D3): for a cancel the note survives.
 -/
 namespace Fastrace
 
